@@ -248,6 +248,48 @@ def run(prog, rep, tier):
     if n175 < 3:
         raise CheckerError("R17.5: only %d own-container removals found next to try_unwrap" % n175)
 
+    # ------------------------------------------------------------ R17.6 a failed release is retried
+    # SyslineReader::drop_data picks its candidates by iterating self.syslines; drop_sysline takes the
+    # candidate out of that index before Arc::try_unwrap.  If the unwrap fails (the message is still
+    # queued for printing) and the item is not put back, no later pass sees it again: its lines and
+    # blocks stay in the LineReader/BlockReader for the rest of the run (memory grows with the file
+    # whenever printing lags, e.g. multi-block messages or a slow stdout).
+    R176 = rep.rule("R17.6", "an item whose release failed stays in the index the release pass iterates")
+    dd = prog.body(SR + "::drop_data")
+    ds = prog.body(SR + "::drop_sysline")
+    iter_fields = set()
+    for c in dd.live_calls():
+        if c.d.split("::")[-1] in ("iter", "keys", "values", "range", "iter_mut"):
+            for o in dd.origins(c.args[0]):
+                if o[0] == "arg" and o[1] == 1:
+                    for f_ in o[2]:
+                        if f_ not in ("*", "&"):
+                            iter_fields.add(f_)
+    tus = [c for c in ds.live_calls() if c.d.split("::")[-1] == "try_unwrap" and "Arc" in c.d]
+    rem = []
+    for c in ds.live_calls():
+        if c.d.split("::")[-1] in ("remove", "pop", "remove_entry") and c.args:
+            for o in ds.origins(c.args[0]):
+                if o[0] == "arg" and o[1] == 1 and any(f_ in o[2] for f_ in iter_fields):
+                    rem.append((c, [f_ for f_ in iter_fields if f_ in o[2]][0]))
+    if not tus or not rem:
+        raise CheckerError("drop_sysline: try_unwrap (%d) / removal from the iterated index (%d) not recognised; drop_data iterates %s" % (len(tus), len(rem), sorted(iter_fields)))
+    import c03 as _c03
+    for tu in tus:
+        swbb, arms_, oth_ = _c03.result_arms(ds, tu)
+        err_t = arms_.get(1)
+        for (rc, fld) in rem:
+            if not ds.dominates(rc.bb, tu.bb):
+                continue
+            ins = [c for c in ds.live_calls() if c.d.split("::")[-1] in ("insert", "push", "push_back", "entry", "try_insert") and c.args and
+                   any(o[0] == "arg" and o[1] == 1 and fld in o[2] for o in ds.origins(c.args[0]))]
+            lost = err_t is not None and any(ds.term(x)[0] == "ret" for x in ds.reachable(err_t, set(c.bb for c in ins)))
+            inst = "%s|%s" % (ds.path, fld)
+            rep.examined(R176, inst, sample={"release_pass_iterates": sorted(iter_fields), "removed_before_test_line": rc.line, "reinserts": [c.line for c in ins], "failure_arm_can_return_without_reinsert": lost})
+            if lost:
+                rep.violation(R176, inst, "SyslineReader::drop_sysline: the message is removed from self.%s (line %d) before Arc::try_unwrap (line %d); when the unwrap fails it is not put back, and drop_data, which "
+                              "iterates self.%s, never retries it: its lines and blocks are kept (3000 three-block messages, --blocksz 1024, slow stdout: blocks high 8664 of 8709)" % (fld, rc.line, tu.line, fld))
+
     # ------------------------------------------------------------ R17.4 every block can be released
     # For a plain file nothing but LineReader::drop_line hands blocks to BlockReader::drop_block (the
     # look-behind drop exists only in the decoders).  drop_line releases the blocks of a line's parts
